@@ -22,7 +22,6 @@ COQ = os.path.join(VERIF, "coq")
 OCAML = os.path.join(VERIF, "ocaml")
 HARNESS = os.path.join(VERIF, "harness")
 HARNESS_BIN = os.path.join(HARNESS, "target", "release", "mdns-verif-harness")
-MODEL_BIN = os.path.join(OCAML, "model_driver")
 EVIDENCE = os.path.join(VERIF, "evidence")
 REPLAYS = os.path.join(VERIF, "replays")
 NPROC = min(16, os.cpu_count() or 4)
@@ -76,11 +75,11 @@ def gen_params():
     return rc == 0, out
 
 
+COQMAKE = os.path.join(VERIF, "tools", "coqmake.sh")
+
+
 def ensure_makefile():
-    mk = os.path.join(COQ, "Makefile")
-    cp = os.path.join(COQ, "_CoqProject")
-    if not os.path.exists(mk) or os.path.getmtime(mk) < os.path.getmtime(cp):
-        sh("coq_makefile -f _CoqProject -o Makefile", cwd=COQ)
+    pass  # tools/coqmake.sh regenerates _CoqProject / Makefile as needed, under a lock
 
 
 def build_proofs(vfile):
@@ -92,13 +91,19 @@ def build_proofs(vfile):
     # the .vo of the property file is always rebuilt so that Print Assumptions output is fresh
     if os.path.exists(vo):
         os.remove(vo)
-    rc, out = sh(["make", "-j%d" % NPROC, target], cwd=COQ, timeout=3000)
+    rc, out = sh(["sh", COQMAKE, target], cwd=COQ, timeout=3400)
     return rc == 0, out, time.time() - t0
 
 
-def build_model():
-    """Extraction + OCaml driver; rebuilt when any model source is newer than the binary."""
-    srcs = [os.path.join(OCAML, f) for f in ("Extract.v", "driver.ml", "build.sh")]
+def model_bin(group):
+    return os.path.join(OCAML, group, "model_driver")
+
+
+def build_model(group):
+    """Extraction + OCaml driver of one group; rebuilt when any source is newer than the binary."""
+    MODEL_BIN = model_bin(group)
+    srcs = [os.path.join(OCAML, group, "Extract.v"), os.path.join(OCAML, group, "driver.ml"),
+            os.path.join(OCAML, "build.sh"), os.path.join(OCAML, "drvlib.ml")]
     for d in ("Model", "Base", "Gen"):
         dd = os.path.join(COQ, d)
         srcs += [os.path.join(dd, f) for f in os.listdir(dd) if f.endswith(".v")]
@@ -111,10 +116,10 @@ def build_model():
     for d in ("Base", "Gen", "Model"):
         dd = os.path.join(COQ, d)
         vos += ["%s/%s" % (d, f[:-2] + ".vo") for f in sorted(os.listdir(dd)) if f.endswith(".v")]
-    rc, out = sh(["make", "-j%d" % NPROC] + vos, cwd=COQ, timeout=3000)
+    rc, out = sh(["sh", COQMAKE] + vos, cwd=COQ, timeout=3400)
     if rc != 0:
         return False, out
-    rc, out = sh(["sh", os.path.join(OCAML, "build.sh")], cwd=OCAML, timeout=1800)
+    rc, out = sh(["sh", os.path.join(OCAML, "build.sh"), group], cwd=OCAML, timeout=1800)
     return rc == 0, out
 
 
@@ -165,7 +170,7 @@ def run_cases(binp, lines, env_extra=None):
     return res
 
 
-def run_monitor(prop_id, lines, impl_results):
+def run_monitor(prop_id, lines, impl_results, MODEL_BIN=None):
     """The extracted monitor: decides for (case, implementation result) whether the property's
     statement holds on it. Input to the model driver: 'mon <ID> <case> => <result>'."""
     mon_lines = ["mon %s %s => %s" % (prop_id, l, r) for l, r in zip(lines, impl_results)]
@@ -331,7 +336,8 @@ def main_check(mod):
         problems.append({"kind": "params", "what": "parameter extractor lost an anchor", "detail": outp.strip()})
 
     # 2. proof obligations
-    okm, outm = build_model()
+    MODEL_BIN = model_bin(mod.MODEL_GROUP)
+    okm, outm = build_model(mod.MODEL_GROUP)
     if not okm:
         log(outm)
         problems.append({"kind": "model", "what": "model/extraction does not build", "detail": outm[-3000:]})
@@ -372,7 +378,7 @@ def main_check(mod):
     t1 = time.time()
     impl = run_cases(binp, lines, getattr(mod, "HARNESS_ENV", None))
     model = run_cases(MODEL_BIN, lines) if okm else ["NOMODEL"] * len(lines)
-    mon = run_monitor(pid, lines, impl) if okm else ["NOMODEL"] * len(lines)
+    mon = run_monitor(pid, lines, impl, MODEL_BIN) if okm else ["NOMODEL"] * len(lines)
     t_run = time.time() - t1
 
     disagreements = [i for i in range(len(lines)) if impl[i] != model[i] and impl[i] != "SKIP"]
@@ -410,11 +416,11 @@ def main_check(mod):
 
         def still_bad(l):
             r = run_cases(binp, [l], getattr(mod, "HARNESS_ENV", None))
-            m = run_monitor(pid, [l], r)
+            m = run_monitor(pid, [l], r, MODEL_BIN)
             return (not m[0].startswith("PASS")) and r[0] != "SKIP" and not m[0].startswith("BAD")
         small = shrink(pid, lines[i], binp, still_bad)
         r = run_cases(binp, [small], getattr(mod, "HARNESS_ENV", None))
-        m = run_monitor(pid, [small], r)
+        m = run_monitor(pid, [small], r, MODEL_BIN)
         rp = write_replay(pid, {"kind": "case", "case": small, "original_case": lines[i],
                                 "impl_result": r[0], "model_result": run_cases(MODEL_BIN, [small])[0],
                                 "monitor": m[0], "tag": cases[i].tag, "seed": seed, "tier": tier,
@@ -429,7 +435,7 @@ def main_check(mod):
             extra = mod.search(rng2, problems, [lines[i] for i in unexplained])
             xl = [c.line for c in extra]
             xr = run_cases(binp, xl, getattr(mod, "HARNESS_ENV", None))
-            xm = run_monitor(pid, xl, xr) if okm else []
+            xm = run_monitor(pid, xl, xr, MODEL_BIN) if okm else []
             for j in range(len(xm)):
                 if not xm[j].startswith("PASS") and xr[j] != "SKIP":
                     cls = mod.known_class(xl[j], xr[j], xm[j]) if hasattr(mod, "known_class") else None
